@@ -52,6 +52,10 @@ Theorem C19_override_wins : stmt_override_wins.
 Proof. exact (@override_wins_ok). Qed.
 Theorem C19_stored_settings_used : stmt_stored_settings_used.
 Proof. exact (@stored_settings_used_ok). Qed.
+Theorem C19_load_validates_effective_settings : stmt_load_validates_effective_settings.
+Proof. exact (@load_validates_effective_settings_ok). Qed.
+Theorem C19_override_ignores_stored_settings : stmt_override_ignores_stored_settings.
+Proof. exact (@override_ignores_stored_settings_ok). Qed.
 Theorem C19_load_total_no_panic : stmt_load_total_no_panic.
 Proof. exact (@load_total_no_panic_ok). Qed.
 Theorem C19_load_panics_refuted : stmt_load_panics_refuted.
